@@ -8,31 +8,31 @@ ALL = [f"C{i:02d}" for i in range(1, 19)]
 CODEC_NOTE = "Trusted: the reference interpreter odxmodel/refodx.py (appendix C of DESIGN.md) and the ODX emitter; constructs outside the envelope are skipped and counted as dont_care. Wider than 12-bit value domains are covered by boundary alphabets; programs deeper than 4 parameters / nesting deeper than structure-in-structure are outside the bound."
 CHECKS = {
  "C01": dict(cat="model_checking", tech="exhaustive enumeration of the codec program space (atomic types + breadth-first parameter sequences to depth 3/4) x value alphabets on the real encoder/decoder; independent reference interpreter supplies complete(v)",
-   text="Every program of the shared codec space (layer A: 7 integer kinds x 1..64 bits x 3 byte orders x 8 bit positions, masks, floats, strings, MIN-MAX, LEADING-LENGTH, PARAM-LENGTH; layer C: all parameter sequences to depth 2 over 34 templates x 3 position modes, depth 3 over 15, depth 4 over 6) is emitted as ODX XML, loaded by the real loader and run with all values of small domains / boundary sets: decode(encode(v)) must equal the completed assignment computed by the reference interpreter and consume the whole PDU.",
+   text="Every program of the shared codec space (layer A: 7 integer kinds x 1..64 bits x 3 byte orders x 8 bit positions, masks, floats, strings, MIN-MAX, LEADING-LENGTH, PARAM-LENGTH; layer B: 8-bit compu programs of every category; layer C: all parameter sequences to depth 2 over 61 templates x 3 position modes, depth 3 over 18, depth 4 over 6, explicit far/zero positions, response programs inside services, one program per predefined SYSPARAM kind) is emitted as ODX XML, loaded by the real loader and run with all values of small domains / boundary sets: decode(encode(v)) must equal the completed assignment computed by the reference interpreter and consume the whole PDU.",
    note=CODEC_NOTE, ref="4, 5/C01"),
  "C02": dict(cat="model_checking", tech="exhaustive enumeration of the codec program space x values, byte-for-byte comparison with an independent bit-level ODX interpreter, on both bitstruct backends (second process with bitstruct.c unimportable)",
-   text="For every program and every assignment the reference accepts: identical PDU bytes, identical decode of the reference-built PDU, overlap warning iff the reference sees a bit claimed twice (dedicated overlap programs included); the complete exploration is repeated with the pure-Python bit-packing backend.",
+   text="For every program and every assignment the reference accepts: identical PDU bytes, identical decode of the reference-built PDU, overlap warning iff the reference sees a bit claimed twice (dedicated overlap programs included); the composition units are run again after a second Database.refresh(); the complete exploration is repeated with the pure-Python bit-packing backend. Every unit runs in a forked child of a pristine worker (state the library shares between objects cannot leak between units).",
    note=CODEC_NOTE, ref="4, 5/C02"),
  "C03": dict(cat="model_checking", tech="exhaustive enumeration of reference-built canonical PDUs of the codec program space; decode then re-encode on the real implementation, directly and through DiagLayer.decode / DiagService.encode_request",
    text="Every distinct PDU that the reference interpreter builds from every value assignment of every program (all internal values of small types) is decoded by the real decoder and the decoded dictionary is encoded again: the bytes must be identical.",
    note=CODEC_NOTE + " Programs with NRC-CONST parameters are excluded (their value cannot be set by design). The compu-level inverse law is checked by C07.", ref="4, 5/C03"),
  "C05": dict(cat="model_checking", tech="exhaustive enumeration of byte strings (all prefixes, single-byte substitutions, insertions/deletions of valid PDUs; all strings up to length 3/4 over the program's byte alphabet) against every program and every somersault layer",
-   text="For every program of the codec space and every layer of the shipped somersault database, every byte string of the bounded space is decoded through Request/Response.decode, DiagLayer.decode, decode_response and DiagService.decode_message: the call returns or raises DecodeError, nothing else escapes, it terminates, and a PDU on which the reference decoder runs out of bytes is rejected.",
+   text="For every program of the codec space and every layer of the shipped somersault database, every byte string of the bounded space is decoded through Request/Response.decode, DiagLayer.decode, decode_response and DiagService.decode_message: the call returns or raises DecodeError, nothing else escapes, it terminates, and a PDU on which the reference decoder runs out of bytes is rejected. The same exploration is repeated with strict mode off (there only 'no foreign exception, terminates' is judged).",
    note=CODEC_NOTE + " Random strings of the property's quantifier are replaced by the exhaustive bounded sets; strings longer than 4 bytes are reached only as mutations of valid PDUs.", ref="4, 5/C05"),
  "C08": dict(cat="model_checking", tech="exhaustive enumeration of programs x value assignments x all subsets of supplied parameters; static metadata compared with actual encodings",
-   text="For every program: the reported static bit length equals the size of every successful encoding, the reported constant prefix is a prefix of every PDU, required parameters are exactly those whose omission fails (all subsets of up to 4 supplied parameters), free parameters are exactly the settable ones.",
+   text="For every program: the reported static bit length equals the size of every successful encoding, the reported constant prefix is a prefix of every PDU, required parameters are exactly those whose omission fails (all subsets of up to 4 supplied parameters; a valid assignment that leaves out only parameters reported as not required must encode), free parameters are exactly the settable ones and their supplied values are what the PDU carries; the structure-level accessors agree with the parameter flags.",
    note=CODEC_NOTE, ref="4, 5/C08"),
  "C04": dict(cat="model_checking", tech="exhaustive enumeration of valid and invalid value assignments (all of [-2^n, 2^(n+1)] for small n, boundary sets, wrong types, every single-fault neighbour of valid assignments of composed programs) on the real encoder, both backends",
-   text="For every assignment the encoder either raises an odxtools OdxError subclass or returns a PDU that decodes back to the requested values; any foreign exception type or silent wrap/truncate/pad/drop is a violation.",
+   text="For every assignment the encoder either raises an odxtools OdxError subclass or returns a PDU that decodes back to the requested values; any foreign exception type or silent wrap/truncate/pad/drop is a violation. Covers layers A, B (incl. non-finite floats) and C to depth 3 (quick: depth 3 only for explicitly positioned programs and responses).",
    note=CODEC_NOTE + " Out-of-mask values of BIT-MASK types, values for RESERVED parameters, extra members of environment-data dictionaries are outside the property's envelope.", ref="4, 5/C04"),
  "C12": dict(cat="model_checking", tech="exhaustive enumeration of (length x frame size x padding) + explicit-state BFS over all frame interleavings of up to 3 CAN IDs on the real IsoTpStateMachine, reference ISO 15765-2 segmenter as oracle",
-   text="Every telegram length 1..4095 (quick: 1..300 + all segment boundaries) x 8 classic/FD frame sizes x 4 padding modes is segmented by an independent reference segmenter and fed to the real reassembler; all interleavings of the frame scripts of 2-3 IDs (SF, FF+1CF, FF+2CF, FF+17CF with sequence-number wrap, two telegrams per ID) with flow-control and foreign-ID frames insertable at every point are explored as a state graph whose canonical state includes the real object's per-ID buffers, with the safety oracle 'reported == sent so far' in every state; both candump text formats and the active decoder's flow-control answers are checked on the same streams.",
+   text="Every telegram length 1..4095 (quick: 1..300 + all segment boundaries) x 8 classic/FD frame sizes x 4 padding modes is segmented by an independent reference segmenter and fed to the real reassembler; all interleavings of the frame scripts of 2-3 IDs (SF, FF+1CF, FF+2CF, FF+17CF with sequence-number wrap, two telegrams per ID) with flow-control and foreign-ID frames insertable at every point are explored as a state graph whose canonical state includes the real object's per-ID buffers, with the safety oracle 'reported == sent so far' in every state; both candump text formats (also with non-frame lines between the frames) and the active decoder's flow-control answers (every telegram length class, receive/transmit ID lists in any order, the decoder built by the snoop tool) are checked on the same streams; identical telegrams back to back.",
    note="Trusted: the reference segmenter (normal addressing, 12-bit FF length). Not driven: the socket branch of read_telegrams. More than 3 concurrent IDs / more than 3 telegrams per ID are outside the bound.", ref="5/C12"),
- "C13": dict(cat="fault_enumeration", tech="deviation-bounded exhaustive fault injection (0/1/2 faults at every position) + explicit-state BFS to the fixpoint over a 24-frame alphabet on the real IsoTpStateMachine, justification monitor as oracle",
-   text="Five base streams x every placement of 0, 1 and 2 faults out of 9 kinds (drop, duplicate, swap, truncate, every PCI nibble, every sequence number, stray CF, FC, empty frame), each followed by well-formed probe transfers; plus a BFS over all sequences of a 24-frame alphabet (incl. malformed frames) to the fixpoint of (implementation state, monitor state) with the probes run from every reached state. Oracle: no exception, every reported telegram justified by the delivered history, each first frame yields at most one telegram, probe reassembled exactly once.",
+ "C13": dict(cat="fault_enumeration", tech="deviation-bounded exhaustive fault injection (0/1/2 faults at every position) + explicit-state BFS to the fixpoint over a 29-frame alphabet on the real IsoTpStateMachine and the two decoders the snoop tool builds, justification monitor as oracle",
+   text="Eight base streams (one and two IDs, two transfers on one ID, a 42-frame transfer) x every placement of 0, 1 and 2 faults out of 12 kinds (drop, duplicate, swap, truncate, every PCI nibble, every sequence number, stray CF, FC, cut FC, single frame inside the transfer, empty frame), every faulty stream also as candump text in both formats and as a log cut inside the last byte, each followed by well-formed probe transfers; plus a BFS over all sequences of a 29-frame alphabet (incl. malformed frames) to the fixpoint of (implementation state, monitor state) with the probes run from every reached state. Oracle: no exception, every reported telegram justified by the delivered history, each first frame yields at most one telegram, probe reassembled exactly once, IDs whose frames carry no fault get exactly their telegrams.",
    note="Trusted: the justification monitor (accepts both ISO reactions to a sequence error). Callback invocations are recorded, not judged. Three or more simultaneous faults are outside the bound.", ref="5/C13"),
  "C16": dict(cat="model_checking", tech="explicit-state BFS over all operation histories of the real NamedItemList (depth 4/5), reference list + name invariants on every state",
-   text="Every history of append/insert/extend/remove/pop/clear/copy/copy.copy/deepcopy/pickle operations up to depth 4 (quick) / 5 (thorough) over a 7-item alphabet with equal, same-named, suffixed-name, keyword, digit-leading and method-like short names is executed on the real class; each reached state is compared with a plain list and checked for the name invariants of the property. Exhaustive within the bound; states/transitions are counted by the explorer.",
+   text="Every history of append/insert/extend/remove/pop/clear/copy/copy.copy/deepcopy/pickle operations up to depth 4 (quick) / 5 (thorough) over a 10-item alphabet with equal, same-named, suffixed-name, keyword (lower and mixed case), digit-leading, method-like and dunder short names, incl. refused items and named-item-list / generator arguments is executed on the real class; each reached state is compared with a plain list and checked for the name invariants of the property (all accessors of the name view agree; names not in use resolve nowhere). Exhaustive within the bound; states/transitions are counted by the explorer.",
    note="Trusted: Python list semantics as reference; the alphabet (an item object is never inserted twice; +=, slicing, sort are outside the property). Beyond the depth bound nothing is claimed.", ref="5/C16"),
 }
 
